@@ -65,6 +65,8 @@ type SessionSpec struct {
 	PeerDelayMs int `json:"peer_delay_ms,omitempty"`
 	// CloseErr: the connection's Close() closes it but returns an error (net.Pipe transport only)
 	CloseErr bool `json:"close_err,omitempty"`
+	// ExitCloses: the handler's OnExit calls s.Close() itself (a harmless, common way to make sure the session is closed)
+	ExitCloses bool `json:"exit_closes,omitempty"`
 }
 
 type CaseSess struct {
@@ -100,6 +102,7 @@ func GenSess(t *rapid.T) CaseSess {
 		s.Concurrent = rapid.Bool().Draw(t, "concurrent")
 		s.OwnHandler = rapid.IntRange(0, 3).Draw(t, "ownhandler") == 0
 		s.CloseErr = rapid.IntRange(0, 4).Draw(t, "closeerr") == 0
+		s.ExitCloses = rapid.IntRange(0, 3).Draw(t, "exitcloses") == 0
 		if rapid.IntRange(0, 5).Draw(t, "bulk") == 0 {
 			s.Bulk = rapid.SampledFrom([]int{16, 64}).Draw(t, "nbulk")
 			s.PeerDelayMs = rapid.SampledFrom([]int{0, 20, 60}).Draw(t, "peerdelay")
@@ -176,6 +179,9 @@ func (h *handler) OnExit(s *stcp.Session) {
 	r := h.get(s)
 	if r == nil {
 		return
+	}
+	if r.spec.ExitCloses {
+		s.Close()
 	}
 	if r.exits.Add(1) == 1 {
 		close(r.exited)
@@ -269,7 +275,12 @@ func sessionGoroutines() []string {
 		buf = make([]byte, 2*len(buf))
 	}
 	var out []string
+	ignoredMu.Lock()
+	defer ignoredMu.Unlock()
 	for _, blk := range strings.Split(string(buf), "\n\n") {
+		if ignoredG[gid(blk)] {
+			continue
+		}
 		// a goroutine that was created by Start but has not run yet shows only the
 		// compiler's wrapper (Start.func1.gowrapN), not the loop function
 		if strings.Contains(blk, "stcp.(*Session).loopSend") || strings.Contains(blk, "stcp.(*Session).loopReceive") || strings.Contains(blk, "stcp.(*Session).Start.func") ||
@@ -278,6 +289,49 @@ func sessionGoroutines() []string {
 		}
 	}
 	return out
+}
+
+// Goroutines a FAILED case left stuck in the session loops (that they are stuck was the failure) are remembered,
+// so that the re-runs of shrinking and the following cases are not judged by them.
+var (
+	ignoredMu sync.Mutex
+	ignoredG  = map[string]bool{}
+)
+
+func gid(blk string) string {
+	if i := strings.Index(blk, " ["); i > 0 {
+		return blk[:i]
+	}
+	return blk
+}
+
+// afterCase: a failed case may leave session goroutines behind for good.
+func afterCase(res *vkit.Result) {
+	if res == nil || res.Fail == nil {
+		return
+	}
+	waitFor(func() bool { return len(sessionGoroutines()) == 0 }, time.Second)
+	left := sessionGoroutines()
+	ignoredMu.Lock()
+	for _, b := range left {
+		ignoredG[gid(b)] = true
+	}
+	ignoredMu.Unlock()
+}
+
+// closeNoWait calls Close but does not wait for it for more than a moment (a Close that blocks is a finding of
+// the case, not a reason to hang the harness).
+func closeNoWait(s *stcp.Session) { closeBounded(s, 200*time.Millisecond) }
+
+// closeBounded is Close as an event of a case: the harness goes on after d even if the call has not returned
+// (the oracles then judge what became of the session).
+func closeBounded(s *stcp.Session, d time.Duration) {
+	done := make(chan struct{})
+	go func() { defer close(done); defer func() { _ = recover() }(); s.Close() }()
+	select {
+	case <-done:
+	case <-time.After(d):
+	}
 }
 
 func waitFor(cond func() bool, d time.Duration) bool {
@@ -341,10 +395,11 @@ func ExecSess(c CaseSess) *vkit.Result {
 	var runs []*sessRun
 	cleanup := func() {
 		for _, r := range runs {
-			r.sess.Close()
+			closeNoWait(r.sess)
 			r.peer.Close()
 			r.conn.Conn.Close()
 		}
+		afterCase(res)
 	}
 	defer cleanup()
 	for i, spec := range c.Sessions {
@@ -439,7 +494,7 @@ func ExecSess(c CaseSess) *vkit.Result {
 			do := func() {
 				switch ev {
 				case "local-close":
-					r.sess.Close()
+					closeBounded(r.sess, patience)
 				case "peer-close":
 					if !r.spec.PeerReads {
 						r.peer.Close()
@@ -515,7 +570,7 @@ func ExecSess(c CaseSess) *vkit.Result {
 	// terminating events: local Close plus peer close (which also unblocks a pipe write)
 	for _, r := range runs {
 		if e := classify(r); !e.guaranteed {
-			r.sess.Close()
+			closeBounded(r.sess, patience)
 			r.peer.Close()
 			res.Class("ended-by-epilogue-close")
 		}
